@@ -195,9 +195,11 @@ def extra_checks(prop, tier, results):
              'samples': [], 'violations': [], 'harnesses': [], 'trusted': [], 'artifact': 'kani/%s.rs' % unit}
         und = []
         for r in rs:
-            hid = 'kani::%s::%s' % (unit, r['harness'].split('::')[-1])
+            hid = '%s::%s::%s' % ('enum' if r['kind'] == 'enum' else 'kani', unit, r['harness'].split('::')[-1])
             e['harnesses'].append({'id': hid, 'harness': r['harness'], 'kind': r['kind'], 'bound': r.get('bound') or None, 'claim': r.get('label'),
-                                   'status': r['status'], 'cbmc_time_s': r.get('time'), 'cached': r.get('cached'), 'cmd': r.get('cmd')})
+                                   'status': r['status'], 'cbmc_time_s': r.get('time'), 'executions': r.get('executions'), 'cached': r.get('cached'), 'cmd': r.get('cmd')})
+            if r['kind'] == 'enum' and r['status'] == 'pass' and not r.get('executions'):
+                und.append('%s: no execution recorded' % hid)
             if r['kind'] == 'complete':
                 e['obligations'] += 1
                 if r['status'] == 'pass':
@@ -207,7 +209,7 @@ def extra_checks(prop, tier, results):
                 rep = r.get('replay') or {}
                 wit = None
                 if r.get('concrete_vals') is not None and rep.get('reproduced'):
-                    wit = {'kani_concrete_values': r['concrete_vals'], 'replayed_on_real_code': True, 'replay_cmd': rep.get('cmd'), 'replay_output': rep.get('output')}
+                    wit = {('enumeration_choices' if r['kind'] == 'enum' else 'kani_concrete_values'): r['concrete_vals'], 'replayed_on_real_code': True, 'replay_cmd': rep.get('cmd'), 'replay_output': rep.get('output')}
                 e['violations'].append({'id': hid, 'kind': 'kani-' + r['kind'], 'tags': r['props'],
                                         'message': '%s: %s' % (r.get('label'), '; '.join(r.get('failed_checks') or [])),
                                         'where': r['harness'], 'rendered': json_dumps_short(r), 'witness': wit,
@@ -216,7 +218,7 @@ def extra_checks(prop, tier, results):
                 und.append('%s: %s' % (hid, r.get('reason', 'no verdict')))
         if und:
             e['undecided'] = ' ; '.join(und)
-        e['trusted'].append('kani:%s: CBMC bit-precise model of the Rust code as compiled by Kani (MIR -> goto); std modelled by Kani; stub operands and sinks defined in kani/%s.rs; termination not checked' % (unit, unit))
+        e['trusted'].append('kani:%s: (CBMC harnesses) CBMC bit-precise model of the Rust code as compiled by Kani (MIR -> goto); std modelled by Kani; stub operands and sinks defined in kani/%s.rs; termination not checked' % (unit, unit))
         out.append(e)
     return out
 
